@@ -888,6 +888,7 @@ func (t *Term) str(names map[*Term]string) string {
 // Script builds an SMT-LIB script: declarations of every symbol reachable from
 // the given assertions, define-fun for shared closed sub-terms, the asserts.
 type Script struct {
+	Raw     func(used map[string]bool) string
 	Prelude string
 	Asserts []*Term
 	Defs    func() string
@@ -971,6 +972,15 @@ func (s *Script) String(getValues []*Term) string {
 		out.WriteByte('\n')
 	}
 	out.WriteString(s.postDecl())
+	if s.Raw != nil {
+		used := map[string]bool{}
+		for _, t := range order {
+			if t.Op == "app" || t.Op == "var" {
+				used[t.Name] = true
+			}
+		}
+		out.WriteString(s.Raw(used))
+	}
 	// shared closed terms
 	nm := map[*Term]string{}
 	for _, t := range order {
